@@ -86,4 +86,21 @@ def handleExtSel (req : Sexp) : Sexp :=
   | .error .noMatch => mkList "err" [.atom "noMatch"]
   | .error (.parse e) => mkList "err" [.atom (perrName e)]
 
+/-- `(extlist id (opts ..) (entry (pkg "path") (literal b) (lit "name") (cands ..)) ..)` -/
+def handleExtList (req : Sexp) : Sexp :=
+  let o := match field? req "opts" with | some x => optsOf x | none => {}
+  let entries : List ExtEntry := (args req).filterMap (fun e =>
+    if head? e == some "entry" then
+      let one (k : String) : Sexp := match fieldArgs e k with | [v] => v | _ => .atom ""
+      let cands : List Cand := (fieldArgs e "cands").map (fun c => match args c with
+        | [n, fm, ob] => { name := sOf n, fullMatch := asBool fm, obj := objOf ob }
+        | _ => default)
+      some { pkg := sOf (one "pkg"), literal := asBool (one "literal"), lit := sOf (one "lit"), cands := cands }
+    else none)
+  match extendList o entries with
+  | .ok l => mkList "ok" (l.map (fun (p, n) => strS (p ++ ":".toList ++ n)))
+  | .error .notFound => mkList "err" [.atom "notFound"]
+  | .error .noMatch => mkList "err" [.atom "noMatch"]
+  | .error (.parse e) => mkList "err" [.atom (perrName e)]
+
 end Gv.Driver
